@@ -37,7 +37,7 @@ EXC_TYPES = ['KeyError', 'IndexError', 'ValueError', 'TypeError', 'TypeErrorArgu
 FLOORS = {
     'quick': dict({'events_checked': 4000, 'tagging_compared': 2500, 'failing_reached': 800, 'default_only_compared': 4000,
                    'declared_params_calls': 500, 'fallback_name_calls': 1000, 'nomemo_retry_k3': 200, 'memo_replay_seen': 25,
-                   'gen_cases': 400}, **{'exc_propagated:' + e: 60 for e in EXC_TYPES}),
+                   'gen_cases': 400, 'gen_reused_cases': 150}, **{'exc_propagated:' + e: 60 for e in EXC_TYPES}),
     'thorough': {'events_checked': 100000, 'tagging_compared': 60000, 'failing_reached': 20000},
 }
 N = {'quick': 2400, 'thorough': 64000}
@@ -63,9 +63,19 @@ def plan(tier, seed):
     return [{'seed': seed, 'shard': i, 'n': N[tier] // k, 'tier': tier} for i in range(k)]
 
 
+SCALAR_CONSTS = ['1', 'True', '1.0', '0', 'False', '0.0', '5', "'s'"]
+
+
 def gen_case(rng):
     F = dict(G.FEATURES, cut=rng.random() < 0.2, skipto=rng.random() < 0.3)
-    g = G.gen_grammar(rng, F, max_rules=4, pats=list(G.PATS)[:5])
+    saved = list(G.CONSTS)
+    if rng.random() < 0.5:
+        # constants that compare equal across types (1 == True == 1.0): values are compared by canonical TEXT, so types matter
+        G.CONSTS[:] = SCALAR_CONSTS
+    try:
+        g = G.gen_grammar(rng, F, max_rules=4, pats=list(G.PATS)[:5])
+    finally:
+        G.CONSTS[:] = saved
     for r in g.rules:
         if rng.random() < 0.35:
             r.params = tuple(rng.sample(['A', 'b', 7], rng.choice([1, 2])))
@@ -78,11 +88,17 @@ class Backend:
     def __init__(self, g, kind):
         self.kind = kind
         self.model = L.to_model(g, name='T')
-        self.cls = gen_parser(self.model)[0] if kind == 'gen' else None
+        self.cls = gen_parser(self.model)[0] if kind != 'model' else None
+        self.obj = None
 
     def parse(self, text, **kw):
         if self.kind == 'model':
             return self.model.parse(text, **kw)
+        if self.kind == 'gen-reused':
+            # ONE long-lived parser object for every parse of this grammar, whatever semantics each call brings
+            if self.obj is None:
+                self.obj = self.cls()
+            return self.obj.parse(text, **kw)
         return self.cls().parse(text, **kw)
 
 
@@ -99,6 +115,11 @@ def run(be, g, text, sem):
 
 def show(out):
     return (out[0], f'{type(out[1]).__name__}: {out[1]}') if out[0] == 'raised' else out
+
+
+def same(x, y):
+    """type-strict equality of outcomes (1, True and 1.0 are different values)"""
+    return crepr(show(x)) == crepr(show(y))
 
 
 def base_witness(g, text, **extra):
@@ -121,7 +142,7 @@ def check_recording(acc, be, g, text, tag):
     w = base_witness(g, text, backend=be.kind, sem='recording')
     # (c) identity semantics == no semantics
     plain = run(be, g, text, None)
-    if show(plain) != show(out):
+    if not same(plain, out):
         acc.violation(f'identity-differs/{be.kind}', f'identity semantics changed the result: {L.grammar_text(g).strip()!r} {text!r} '
                                                      f'NONE={show(plain)} IDENTITY={show(out)}', w)
     # outcome vs REF
@@ -155,13 +176,13 @@ def check_recording(acc, be, g, text, tag):
             acc.count('event_pos_unobserved')
             continue
         if (name, pos) not in refpos:
-            if 'named-not-single' in r.triggers and be.kind == 'gen':
+            if 'named-not-single' in r.triggers and be.kind != 'model':
                 acc.count('gen_named_defect_skipped')
                 continue
             acc.violation(f'event-not-derivable/{be.kind}', f'action {name!r} invoked ending at {pos} but REF never completes that rule there: '
                                                            f'{L.grammar_text(g).strip()!r} {text!r}', w)
             continue
-        if not flagged and not (be.kind == 'gen' and 'named-not-single' in r.triggers) and 'open-list-rule-value' not in r.triggers:
+        if not flagged and not (be.kind != 'model' and 'named-not-single' in r.triggers) and 'open-list-rule-value' not in r.triggers:
             got[(name, pos, crepr(ast))] += 1
     extra = got - refev
     if extra:
@@ -207,10 +228,10 @@ def check_tagging(acc, be, g, text):
         acc.violation(f'accept/tagging/{be.kind}', f'tagging semantics changed accept/reject: REF={exp} GOT={out} {L.grammar_text(g).strip()!r} {text!r}', w)
         return
     if out[0] == 'ok' and not r.nonw and 'open-list-rule-value' not in r.triggers \
-            and not (be.kind == 'gen' and 'named-not-single' in r.triggers):
+            and not (be.kind != 'model' and 'named-not-single' in r.triggers):
         acc.count('tagging_compared')
         acc.nontriv(L.grammar_text(g), text, 'tagging', be.kind)
-        if out != exp:
+        if not same(out, exp):
             acc.violation(f'result-not-replaced/{be.kind}',
                           f'the value returned by an action did not become the rule\'s value for its callers: '
                           f'{L.grammar_text(g).strip()!r} {text!r} REF={exp} GOT={out}', w)
@@ -246,7 +267,7 @@ def check_failing(acc, be, g, text, rng):
     if reached[0]:
         acc.count('failing_reached')
         acc.nontriv(L.grammar_text(g), text, 'failing', be.kind)
-    if r.nonw or 'open-list-rule-value' in r.triggers or (be.kind == 'gen' and 'named-not-single' in r.triggers):
+    if r.nonw or 'open-list-rule-value' in r.triggers or (be.kind != 'model' and 'named-not-single' in r.triggers):
         return  # the predicate sees ASTs that are compared only in fragment W
     if out[0] == 'raised':
         acc.violation(f'failedsemantics-escaped:{type(out[1]).__name__}/{be.kind}',
@@ -254,7 +275,7 @@ def check_failing(acc, be, g, text, rng):
                       f'{L.grammar_text(g).strip()!r} {text!r}', w)
         return
     exp = ('ok', a[2]) if a[0] == 'ok' else ('fail',)
-    if out != exp:
+    if not same(out, exp):
         acc.violation(f'failedsemantics-alternatives/{be.kind}',
                       f'a failing action must make that invocation fail like a syntax mismatch (other alternatives tried): '
                       f'{L.grammar_text(g).strip()!r} {text!r} target={target} REF={exp} GOT={out}', w)
@@ -385,14 +406,16 @@ def run_shard(desc, acc):
     for i in range(desc['n']):
         rng = random.Random(h64('C06', desc['seed'], desc['shard'], i))
         g = gen_case(rng)
-        kind = 'gen' if i % 3 == 2 else 'model'
+        kind = ('gen' if i % 6 == 2 else 'gen-reused') if i % 3 == 2 else 'model'
         try:
             be = Backend(g, kind)
         except Exception as e:  # noqa: BLE001
             acc.count('build_failed:' + type(e).__name__)
             continue
-        if kind == 'gen':
+        if kind != 'model':
             acc.count('gen_cases')
+        if kind == 'gen-reused':
+            acc.count('gen_reused_cases')
         texts = G.gen_inputs(rng, g, g.rules[0].name, 4)
         for text in texts:
             res = check_recording(acc, be, g, text, None)
